@@ -16,7 +16,7 @@ var libHandlers = map[string]libFn{}
 var pureLib = map[string]bool{
 	"fmt.Sprintf": true, "fmt.Sprint": true, "fmt.Println": true, "fmt.Printf": true, "fmt.Sprintln": true,
 	"encoding/hex.EncodeToString": true,
-	"strconv.Itoa":                true, "strconv.Atoi": true, "strconv.ParseBool": true,
+	"strconv.Itoa":                true,
 	"(net.IP).String": true, "(net/netip.Addr).String": true, "(net/netip.AddrPort).String": true,
 	"net.JoinHostPort": true, "net.SplitHostPort": true,
 	"math/rand.Uint32": true, "math/rand/v2.Uint32": true,
@@ -27,7 +27,7 @@ var purePkgs = map[string]bool{"strings": true, "unicode": true, "unicode/utf8":
 
 // inlineLib: library functions simple enough to be executed from their own source.
 var inlineLib = map[string]bool{
-	"(net.IP).To4": true, "(net.IP).IsPrivate": true,
+	"(net.IP).To4": true, "(net.IP).IsPrivate": true, "(net/url.Values).Get": true,
 }
 
 // libGlobalInts: library package-level variables that are set once at init and then only read.
@@ -275,6 +275,35 @@ func init() {
 		key, srt := ex.byteKey()
 		h := ex.heapGet(c.st, key, srt)
 		return boolVal(app("ip.equal", sel(h, a.L[0]), a.L[1], a.L[2], sel(h, b.L[0]), b.L[1], b.L[2]))
+	})
+	// strconv.Atoi / ParseBool: value and success are functions of the string alone (ASSUMED libspec)
+	parse := func(name string, valSort string, valT types.Type) libFn {
+		return func(c *callCtx) Val {
+			ex := c.ex
+			ex.declareFun(name+".val", []string{sStr}, valSort)
+			ex.declareFun(name+".ok", []string{sStr}, sBool)
+			s := c.args[0].L[0]
+			ok := app(name+".ok", s)
+			v := app(name+".val", s)
+			if valSort == sInt && ex.pure == 0 {
+				lo, hi, _ := intRange(valT)
+				ex.assume(and(app("<=", lo, v), app("<=", v, hi)))
+			}
+			zero := "0"
+			if valSort == sBool {
+				zero = "false"
+			}
+			e := ex.newWrappedError(c.st, nil, ex.name("perr", not(ok), sBool), "parseerr")
+			return Val{L: []string{ite(ok, v, zero), e.L[0], e.L[1]}}
+		}
+	}
+	reg("strconv.Atoi", parse("strconv.atoi", sInt, types.Typ[types.Int]))
+	reg("strconv.ParseBool", parse("strconv.parsebool", sBool, types.Typ[types.Bool]))
+	reg("(*net/url.URL).Query", func(c *callCtx) Val {
+		// a fresh non-nil map decoded from the URL; its contents are unconstrained
+		ex := c.ex
+		c.safety(not(eq(c.args[0].L[0], "0")), "nil *url.URL")
+		return Val{L: []string{ex.alloc(c.st)}}
 	})
 	reg("math.Abs", func(c *callCtx) Val {
 		x := c.args[0].L[0]
